@@ -1568,7 +1568,16 @@ VmTrap vm_core_execute(VmState *vm) {
                 return trap_error(vm, VM_ERR_TYPE_ERROR, "HM_GET: not a hashmap");
             }
             NanoValue v = vm_hashmap_get(map.as.hashmap, key);
-            vm_retain(v);
+            if (v.tag == TAG_VOID && !vm_hashmap_has(map.as.hashmap, key)) {
+                /* Missing key: the default of the map's value type (0 or "") */
+                if (map.as.hashmap->val_type == TAG_STRING) {
+                    v = val_string(vm_string_new(&vm->heap, "", 0));
+                } else {
+                    v = val_int(0);
+                }
+            } else {
+                vm_retain(v);
+            }
             vm_release(&vm->heap, map);
             vm_release(&vm->heap, key);
             stack_push(vm, v);
